@@ -49,9 +49,36 @@ class E7Error(Exception):
 DEAD = (None, False)
 
 
+def is_emit(x):
+    return isinstance(x, tuple) and len(x) == 3 and x[0] == "E"
+
+
+def join_facts(fa, fb):
+    """facts that hold on both paths.  Ordinary facts: intersection.  Emission atoms ('E', depth, kinds) mean "a child whose kind is
+    in `kinds` was emitted into the frame at `depth`": if one path emitted a child in Sa and the other a child in Sb, both emitted
+    a child in Sa|Sb."""
+    common = fa & fb
+    ea = [x for x in fa if is_emit(x) and x not in common]
+    eb = [x for x in fb if is_emit(x) and x not in common]
+    if not ea or not eb:
+        return common
+    out = set(common)
+    n = 0
+    for x in ea:
+        for y in eb:
+            if x[1] == y[1]:
+                u = x[2] | y[2]
+                if len(u) <= 16:
+                    out.add(("E", x[1], u))
+                    n += 1
+                    if n > 60:
+                        return frozenset(out)
+    return frozenset(out)
+
+
 def jv(a, b):
     """join over paths"""
-    w0 = a[0] if b[0] is None else (b[0] if a[0] is None else a[0] & b[0])
+    w0 = a[0] if b[0] is None else (b[0] if a[0] is None else join_facts(a[0], b[0]))
     return (w0, a[1] or b[1])
 
 
@@ -68,19 +95,20 @@ def alive(w):
 
 
 class State:
-    __slots__ = ("w0", "w1", "b", "it", "cond", "val")
+    __slots__ = ("w0", "w1", "b", "it", "cond", "val", "frames")
 
-    def __init__(self, w0=E, w1=False, b=0, it=0, cond=None, val=None):
+    def __init__(self, w0=E, w1=False, b=0, it=0, cond=None, val=None, frames=()):
         self.w0, self.w1, self.b, self.it = w0, w1, b, it
+        self.frames = frames     # shape mode: kinds of the tree nodes opened (start_node) and not yet finished in this function
         self.cond = cond if cond is not None else {}   # local -> (dict outcome->W, default W)
         self.val = val if val is not None else {}      # local -> abstract value tuple
 
     def copy(self):
-        return State(self.w0, self.w1, self.b, self.it, {k: (dict(v[0]), v[1]) for k, v in self.cond.items()}, dict(self.val))
+        return State(self.w0, self.w1, self.b, self.it, {k: (dict(v[0]), v[1]) for k, v in self.cond.items()}, dict(self.val), self.frames)
 
     def key(self):
         return (self.w0, self.w1, self.b, self.it, tuple(sorted((k, tuple(sorted(v[0].items(), key=str)), v[1]) for k, v in self.cond.items())),
-                tuple(sorted(self.val.items(), key=str)))
+                tuple(sorted(self.val.items(), key=str)), self.frames)
 
     def base(self):
         return (self.w0, self.w1)
@@ -110,8 +138,12 @@ class State:
         bump was at EOF, so there the current token is (still) Eof."""
         self.b = 1
         for l, (d, df) in list(self.cond.items()):
-            nd = {o: ((eof_only if v[0] is not None else None), v[1]) for o, v in d.items()}
-            self.cond[l] = (nd, ((eof_only if df[0] is not None else None), df[1]))
+            def stale(v):
+                if v[0] is None:
+                    return (None, v[1])
+                return (frozenset(eof_only) | frozenset(x for x in v[0] if is_emit(x)), v[1])
+            nd = {o: stale(v) for o, v in d.items()}
+            self.cond[l] = (nd, stale(df))
         for l in [l for l, v in self.val.items() if v[0] in CUR_KINDS]:
             del self.val[l]
 
@@ -122,7 +154,7 @@ def join(a, b):
     if b is None:
         return a.copy()
     w = jv(a.base(), b.base())
-    r = State(w[0], w[1], a.b | b.b, a.it & b.it)
+    r = State(w[0], w[1], a.b | b.b, a.it & b.it, frames=a.frames if len(a.frames) <= len(b.frames) else b.frames)
     for l in set(a.cond) | set(b.cond):
         ca, cb = a.cond.get(l), b.cond.get(l)
         outs = set()
@@ -197,6 +229,10 @@ class Domain:
             if len(aggs) != 1:
                 raise E7Error(f"to_token_kind: arm {x} not understood")
             self.pre[aggs[0]["v"]].add(int(x))
+        self.post = {}
+        for name, idxs in self.pre.items():
+            for i in idxs:
+                self.post[i] = name
 
     def comparable_set(self, v):
         """set of lexeme-kind indices a TokenComparable value matches, if known exactly"""
@@ -231,6 +267,7 @@ class Analysis:
         self.cfgs = {}
         self.max_ctx = 20000
         self.calls = defaultdict(set)   # ctx -> contexts it asked for in its latest analysis (+ its loop checks)
+        self.shape = defaultdict(dict)  # shape mode: node kind -> {(ctx, site): set of emission kind-sets on error-free paths}
         self._promoted_kid = {}
 
     # ---------------------------------------------------------------- helpers
@@ -459,6 +496,8 @@ class Analysis:
                     idx = ENUM_IDX[adt].get(rv.get("v"))
                 elif adt in self.P.adts and not rv.get("o"):
                     new_val = ("kid", f"{adt}::{rv.get('v')}")
+                    if adt == self.dom.ast_kind_adt and self.mode == "shape":
+                        new_cond = ({rv.get("v"): st.base()}, DEAD)
                 if idx is not None:
                     new_cond = ({idx: st.base()}, DEAD)
         st.kill(dl)
@@ -583,7 +622,18 @@ class Analysis:
 
         if kind == "prim":
             if data == "bump":
-                if self.mode == "facts":
+                if self.mode in ("facts", "shape"):
+                    emitted = None
+                    if self.mode == "shape" and st.w0 is not None and (t["f"]["k"].get("res") or "").endswith("::do_bump"):
+                        kv = self.op_val(ctx, st, a[1]) if len(a) > 1 else None
+                        if kv is not None and kv[0] == "kid":
+                            emitted = frozenset([kv[1].rsplit("::", 1)[-1]])
+                        elif kv is not None and kv[0] == "tk" and kv[1] == 0:
+                            ex = frozenset(x for x in st.w0 if isinstance(x, int))
+                            poss = {self.dom.post.get(i) for i in ALL - ex}
+                            if None not in poss and len(poss) <= 16:
+                                emitted = frozenset(poss)
+                    keep = frozenset(x for x in (st.w0 or ()) if is_emit(x))
                     if st.w0 is not None:
                         nbump = (t["f"].get("k") or {}).get("ga", [])[-1:] if data == "bump" else None
                         one = (t["f"]["k"].get("res") or "").endswith("::advance") or nbump == ["1"]
@@ -593,6 +643,9 @@ class Analysis:
                                               [(x[0] - 1, x[1]) for x in st.w0 if isinstance(x, tuple) and isinstance(x[0], int) and x[0] >= 2])
                         else:
                             st.w0 = E
+                        st.w0 = st.w0 | keep
+                        if emitted is not None:
+                            st.w0 = st.w0 | {("E", len(st.frames), emitted)}
                     st.bumped(E)
                 else:
                     if st.w0 is not None:
@@ -655,6 +708,46 @@ class Analysis:
                 ci = const_int(a[1])
                 if ci is not None:
                     new_val = ("lex", int(ci))
+            elif data == "error":
+                if self.mode == "shape":
+                    st.w0 = None          # only error-free paths are of interest
+                    st.w1 = True
+            elif data == "start_node":
+                if self.mode == "shape":
+                    kv = self.op_val(ctx, st, a[1]) if len(a) > 1 else None
+                    st.frames = st.frames + ((kv[1].rsplit("::", 1)[-1] if kv is not None and kv[0] == "kid" else None),)
+            elif data in ("finish_node", "finish_remap"):
+                if self.mode == "shape" and st.frames:
+                    depth = len(st.frames)
+                    opened = st.frames[-1]
+                    st.frames = st.frames[:-1]
+                    outcomes = []   # (kind name, W)
+                    if data == "finish_remap":
+                        l = operand_local(a[1]) if len(a) > 1 else None
+                        kv = self.op_val(ctx, st, a[1]) if len(a) > 1 else None
+                        if kv is not None and kv[0] == "kid":
+                            outcomes = [(kv[1].rsplit("::", 1)[-1], st.base())]
+                        elif l is not None and l in st.cond:
+                            outcomes = [(o, st.combine(v)) for o, v in st.cond[l][0].items() if o != "*"]
+                    else:
+                        outcomes = [(opened, st.base())]
+                    kinds = set()
+                    for kname, w in outcomes:
+                        if kname is None or w[0] is None:
+                            continue
+                        kinds.add(kname)
+                        rec = frozenset(x[2] for x in w[0] if is_emit(x) and x[1] == depth)
+                        self.shape[kname][(ctx, t["l"])] = rec
+                    if st.w0 is not None:
+                        st.w0 = frozenset(x for x in st.w0 if not (is_emit(x) and x[1] >= depth))
+                        if kinds and len(kinds) <= 16:
+                            st.w0 = st.w0 | {("E", depth - 1, frozenset(kinds))}
+                    for l2, (d2, df2) in list(st.cond.items()):
+                        def strip(v):
+                            if v[0] is None:
+                                return v
+                            return (frozenset(x for x in v[0] if not (is_emit(x) and x[1] >= depth)), v[1])
+                        st.cond[l2] = ({o: strip(v) for o, v in d2.items()}, strip(df2))
             elif data == "nth_kind":
                 ci = const_int(a[1])
                 if ci is not None:
@@ -727,10 +820,25 @@ class Analysis:
         elif kind == "ctx":
             # the callee is analysed from the facts of the not-yet-consumed world; if that world is dead it is still analysed
             # (with no facts) so that its own loops are checked and its outcomes keep later code reachable
-            cctx = (data[0], data[1], st.w0 if st.w0 is not None else E)
+            mine = frozenset(x for x in (st.w0 or ()) if is_emit(x))
+            entry = (st.w0 - mine) if st.w0 is not None else E
+            cctx = (data[0], data[1], entry)
             s = self.get_summary(cctx, ctx)
+            base_depth = len(st.frames)
+
+            def rebase(v):
+                if v[0] is None or not (mine or any(is_emit(x) for x in v[0])):
+                    return v
+                out = set(mine)
+                for x in v[0]:
+                    if is_emit(x):
+                        if x[1] == 0:
+                            out.add(("E", base_depth, x[2]))
+                    else:
+                        out.add(x)
+                return (frozenset(out), v[1])
             vals = {}
-            for o, v in s["outs"].items():
+            for o, v in ((o, rebase(v)) for o, v in s["outs"].items()):
                 # paths that consumed earlier are not constrained by the facts of the not-consumed world: for them every
                 # outcome of the callee stays possible (an over-approximation that only keeps code reachable)
                 if st.w0 is not None:
@@ -898,6 +1006,14 @@ class Analysis:
             for s in blk["s"]:
                 self.transfer_stmt(ctx, st, s)
             bump |= st.b
+            if self.mode == "shape" and body["locals"][0] == self.dom.ast_kind_adt:
+                outs.pop("*", None)
+                if 0 in st.cond:
+                    for o in st.cond[0][0]:
+                        outs[o] = jv(outs.get(o, DEAD), st.lookup(0, o))
+                else:
+                    outs["?"] = jv(outs.get("?", DEAD), st.base())
+                continue
             for o in outs:
                 v = st.base() if o == "*" else st.lookup(0, o)
                 outs[o] = jv(outs[o], v)
@@ -1438,3 +1554,71 @@ def rule_g2(P, tables):
     stats = {"g2_functions": len(scope), "g2_panic_sites": n_sites, "g2_infeasible": n_infeasible, "g2_const_bounds": n_const,
              "g2_audited_groups": sum(1 for a in audited.values() if a.get("_used")), "g2_contexts": len(live)}
     return findings, obl, samples, stats
+
+
+# ------------------------------------------------------------------------------------------------ rule G3
+def rule_g3(P, tables):
+    """writer/reader agreement between the parser and the typed AST.  Reader side (tables/e7_typed.json, reviewed by reading
+    typed.rs): accessors that unwrap the result of looking for a child of certain kinds in a node of kind K.  Writer side
+    (computed): for every place where the parser finishes a node of kind K, the children it has emitted on EVERY path that
+    reported no error ("must-emit", third mode of the E7 dataflow).  An accessor whose child is not must-emitted means: some
+    input parses without error into a K node lacking that child, and validation/compilation - which run only on error-free
+    trees - panic in the accessor."""
+    from common import norm_fn
+    spec = tables.get("e7_tables", {}).get("parser")
+    typed = tables.get("e7_typed", {}).get("accessors", [])
+    exceptions = {(x["type"], x["accessor"]): x for x in spec.get("typed_exceptions", [])}
+    dom = Domain(P, spec)
+    A = Analysis(P, dom, mode="shape")
+    A.solve(spec["roots"])
+    live = A.live_contexts()
+    findings, obl = [], []
+    n_checked = n_norec = 0
+    used = set()
+    for e in typed:
+        if not e.get("need"):
+            continue
+        recs = {frozenset(r) for (c, l), r in A.shape.get(e["node"], {}).items() if c in live}
+        name = f"{e['type']}::{e['accessor']}"
+        if not recs:
+            n_norec += 1
+            obl.append({"rule": "G3", "inst": f"{name}: no {e['node']} node is finished on an error-free parser path (built by the rewriter or never)", "ok": True})
+            continue
+        n_checked += 1
+        need = set(e["need"])
+        missing = [r for r in recs if not any(S <= need for S in r)]
+        ex = exceptions.get((e["type"], e["accessor"]))
+        if missing and ex is not None:
+            used.add((e["type"], e["accessor"]))
+            obl.append({"rule": "G3", "inst": f"{name}: audited: {ex['reason'][:110]}", "ok": True})
+            continue
+        ok = not missing
+        obl.append({"rule": "G3", "inst": f"{name}: every error-free {e['node']} node contains a child of kind {'/'.join(sorted(need))[:60]}", "ok": ok})
+        if not ok:
+            have = sorted({"/".join(sorted(S)) for S in missing[0]})
+            findings.append({"rule": "G3", "key": f"G3|{e['type']}|{e['accessor']}",
+                             "msg": f"typed::{name}() unwraps a child of kind {sorted(need)} of a {e['node']} node, but the parser can finish such a node without reporting any error "
+                                    f"and without that child (children it always has there: {have[:8]}): validation and compilation run on error-free trees and panic in this accessor",
+                             "loc": "fea-rs/src/token_tree/typed.rs", "detail": {"must_emit": have}})
+    for k, x in exceptions.items():
+        if k not in used:
+            findings.append({"rule": "G3", "key": f"G3|stale-exception|{k[0]}|{k[1]}", "msg": f"typed accessor exception {k} is not needed any more; remove it", "loc": "tables/e7_tables.json", "detail": {}})
+    # census: unwrap/expect call sites per typed node impl, so that a new accessor is noticed
+    n_unwrap = 0
+    for key, b in P.bodies.items():
+        if not key.startswith("fea_rs::token_tree::typed::"):
+            continue
+        for blk in b["blocks"]:
+            t = blk["t"]
+            if t["t"] == "call" and not blk["cl"]:
+                nm = (t["f"].get("k") or {}).get("res") or ""
+                if re.match(r"core::(option|result)::\{impl#\d+\}::(unwrap|expect)$", nm):
+                    n_unwrap += 1
+    limit = spec.get("typed_unwrap_sites")
+    ok = limit is None or n_unwrap <= limit
+    obl.append({"rule": "G3", "inst": f"typed.rs has {n_unwrap} unwrap/expect sites; the reader table was reviewed for {limit}", "ok": ok})
+    if not ok:
+        findings.append({"rule": "G3", "key": "G3|new-unwrap", "msg": f"token_tree/typed.rs has {n_unwrap} unwrap/expect call sites, more than the {limit} the reader-side table was reviewed for: "
+                         f"regenerate tables/e7_typed.json (tools/gen_typed_requirements.py), review it and update typed_unwrap_sites", "loc": "fea-rs/src/token_tree/typed.rs", "detail": {}})
+    return findings, obl, [], {"g3_accessors_checked": n_checked, "g3_accessors_without_parser_node": n_norec, "g3_node_kinds_recorded": len(A.shape),
+                               "g3_typed_unwrap_sites": n_unwrap, "g3_contexts": len(live)}
